@@ -162,7 +162,7 @@ Boolean Double_2_ieee2(Double inp, Byte* pDest, Boolean NeedsBig) {
     Word     Sign;
     Integer  Exponent;
     LongWord Mantissa, Fraction;
-    Boolean  RoundUp;
+    Boolean  RoundUp, Sticky;
 
 #if DBG_FLOAT
     fprintf(stderr, "(0) %g\n", inp);
@@ -233,6 +233,25 @@ Boolean Double_2_ieee2(Double inp, Byte* pDest, Boolean NeedsBig) {
             Mantissa, Exponent, Fraction);
 #endif
 
+    /* (1g) Numbers below the smallest normal FP16 value (2^-14) become denormal.
+       Shift the mantissa to the fixed denormal exponent *before* rounding, so that
+       rounding is done exactly once, at the precision of the result.  Bits shifted
+       out only matter as 'sticky' bits for the rounding decision: */
+
+    Sticky = False;
+    if (Exponent < -14) {
+        int Shift = -14 - Exponent;
+
+        if (Shift > 29) {
+            Sticky   = (Mantissa != 0);
+            Mantissa = 0;
+        } else {
+            Sticky = !!(Mantissa & ((1ul << Shift) - 1));
+            Mantissa >>= Shift;
+        }
+        Exponent = -14;
+    }
+
     /* (2) Round-to-the-nearest for FP16: */
 
     /* Bits 27..18 of fractional part of mantissa will make it into dest, so the decision
@@ -240,7 +259,7 @@ Boolean Double_2_ieee2(Double inp, Byte* pDest, Boolean NeedsBig) {
 
     if (Mantissa & 0x20000ul) /* fraction is >= 0.5 */
     {
-        if ((Mantissa & 0x1fffful) || Fraction) { /* fraction is > 0.5 -> round up */
+        if ((Mantissa & 0x1fffful) || Fraction || Sticky) { /* fraction is > 0.5 -> round up */
             RoundUp = True;
         } else { /* fraction is 0.5 -> round towards even, i.e. round up if mantissa is
                     odd */
@@ -270,34 +289,15 @@ Boolean Double_2_ieee2(Double inp, Byte* pDest, Boolean NeedsBig) {
     if (Exponent > 15) {
         return False;
     } else {
-        /* (3b) number that is too small may degenerate to 0: */
+        /* (3b) Denormal numbers (and zero) have no leading one at bit 28 and are stored
+           with an exponent field of zero; a denormal that was rounded up to the
+           smallest normal number got its leading one by the carry: */
 
-        while ((Exponent < -15) && Mantissa) {
-            Exponent++;
-            Mantissa >>= 1;
+        if (Mantissa & 0x10000000ul) {
+            Exponent += 15;
+        } else {
+            Exponent = 0;
         }
-#if DBG_FLOAT
-        fprintf(stderr, "(after denormchk) %2d * 0x%08x * 2^%d Fraction 0x%08x\n",
-                Sign ? -1 : 1, Mantissa, Exponent, Fraction);
-#endif
-
-        /* numbers too small to represent degenerate to 0 (mantissa was shifted out) */
-
-        if (Exponent < -15) {
-            Exponent = -15;
-        }
-
-        /* For denormal numbers, exponent is 2^(-14) and not 2^(-15)!
-           So if we end up with an exponent of 2^(-15), convert
-           mantissa so it corresponds to 2^(-14): */
-
-        else if (Exponent == -15) {
-            Mantissa >>= 1;
-        }
-
-        /* (3c) add bias to exponent */
-
-        Exponent += 15;
 
         /* (3d) store result */
 
